@@ -94,4 +94,7 @@ func init() {
 	add("C14", "R14l: a subtraction step of AddProof runs on every path or is skipped only on a test of the length of the subtracted list.", "")
 	add("C08", "R08j: a callee that describes one forest (one leaf count, one height) is never handed the leaf count n together with TreeRows(n - k).", "")
 	add("C06", "R06k: a flag under which the map forest's undo writes the leaf index can become true on both sides of the layout test TreeRows(NumLeaves) != TotalRows.", "")
+	add("C14", "R14m: no list AddProof returns receives a concatenation (append(a, b...), AppendMany, copy, slices.Concat, in the function or in a helper, by summaries) of a list derived from one proof only with a list derived from the other only; two proofs that share a target would otherwise return it twice.", "")
+	add("C13", "R13o: every store of the receiver that (*MapPollard).Read refills with Put is emptied first (a dominating call whose closure deletes from that store, or a new store assigned to the field) - the stream describes the whole forest (found D25).", "")
+	add("C16", "R16f: a value is compared with the result of maxPositionAtRow / maxPossiblePosAtRow (the biggest position of a row, inclusive) only with <= / > (package-wide: remap's move loop, the core's row cursor, pruneEdges, ProofPositions, getNewPositions).", "")
 }
